@@ -547,6 +547,7 @@ class Interp:
                 if self.concrete_items(it0) is None:
                     t0, k0 = self.seq_term(it0)
                     fr.locals[key] = VSeq(t0, k0)
+                    fr.locals[key + '_tok'] = self.iter_token(it0)
             if key in fr.locals:
                 return self.segment_for(s, fr, key)
         it = self.eval(s.iter, fr)
@@ -557,11 +558,14 @@ class Interp:
                 raise Unsupported('loop %s#%d over a symbolic sequence needs an invariant' % (fr.qual, ordinal))
             try:
                 for v in items:
+                    tok = self.iter_token(it)
                     self.assign(s.target, v, fr)
                     try:
                         self.exec_block(s.body, fr)
                     except ContinueSignal:
+                        self.iter_check(tok)
                         continue
+                    self.iter_check(tok)
                 else:
                     self.exec_block(s.orelse, fr)
             except BreakSignal:
@@ -611,12 +615,26 @@ class Interp:
                 self.st.assume(rem.t == z3.Concat(z3.Unit(h), tl))
                 fr.locals[key] = VSeq(tl, rem.kind)
                 self.assign(s.target, rem.kind.wrap(h), fr)
+                tok = fr.locals.get(key + '_tok')
                 try:
                     self.exec_block(s.body, fr)
                 except ContinueSignal:
+                    self.iter_check(tok)
                     continue
+                self.iter_check(tok)
         except BreakSignal:
             return
+
+    def iter_token(self, it):
+        """loops are modelled as iteration over a snapshot of the sequence; that is only Python's meaning if the object being
+        iterated is not modified by the body.  Token = (heap location, current term) of an iterated heap list."""
+        if isinstance(it, VList):
+            return (it.loc, self.st.list_cell(it.loc).term)
+        return None
+
+    def iter_check(self, tok):
+        if tok is not None and not self.st.list_cell(tok[0]).term.eq(tok[1]):
+            raise Unsupported('the list being iterated is modified inside the loop body (iteration over a changing list is not modelled)')
 
     def concrete_items(self, it):
         if isinstance(it, VTuple):
